@@ -319,6 +319,16 @@ def main_setup() -> int:
         txt = re.sub(r"\(\*.*?\*\)", "", p.read_text(), flags=re.S)
         for m in pat.finditer(txt):
             hits.append(f"{p.relative_to(C.COQ)}: {m.group(0)}")
+        # Variable / Hypothesis / Context are allowed only inside a Section (they become premises of the closed theorems)
+        depth = 0
+        for line in txt.splitlines():
+            t = line.strip()
+            if re.match(r"Section\s+\w+\s*\.", t):
+                depth += 1
+            elif re.match(r"End\s+\w+\s*\.", t) and depth > 0:
+                depth -= 1
+            elif depth == 0 and re.match(r"(Variables?|Hypothes[ie]s|Context)\b", t):
+                hits.append(f"{p.relative_to(C.COQ)}: {t[:40]} outside a section")
     if hits:
         print("setup: forbidden tokens:", hits)
         return 1
